@@ -89,6 +89,7 @@ type Exec struct {
 	// vTerminates: step budget of the code under test (0: none) and the label it is reported under
 	termLimit int
 	termLabel string
+	race      *raceState
 	depth   int
 	res     *PathResult
 	harness string
@@ -523,7 +524,11 @@ func (ex *Exec) runBlocks(fr *frame, b *ssa.BasicBlock) Value {
 				fnv, args := ex.prepCall(fr, &x.Call)
 				ex.spawn(fnv, args)
 			case *ssa.Store:
-				ex.get(fr, x.Addr).(Ptr).store(ex.get(fr, x.Val))
+				sp := ex.get(fr, x.Addr).(Ptr)
+				if ex.sh.raceCheck {
+					ex.raceAccess(sp.obj, sp.path, true, false, x.Pos())
+				}
+				sp.store(ex.get(fr, x.Val))
 			case *ssa.MapUpdate:
 				m := ex.get(fr, x.Map).(*Map)
 				if m == nil {
@@ -702,6 +707,9 @@ func (ex *Exec) mapFind(m *Map, k Value) int {
 	if m == nil {
 		return -1
 	}
+	if ex.sh.raceCheck && ex.gor != nil {
+		ex.raceAccess(ex.racePseudo(m, "map"), nil, false, false, token.NoPos)
+	}
 	alts := make([]alt, 0, len(m.keys)+1)
 	none := tTrue
 	for i, mk := range m.keys {
@@ -721,6 +729,9 @@ func (ex *Exec) mapFind(m *Map, k Value) int {
 }
 
 func (ex *Exec) mapSet(m *Map, k, v Value) {
+	if ex.sh.raceCheck && ex.gor != nil && m != nil {
+		ex.raceAccess(ex.racePseudo(m, "map"), nil, true, false, token.NoPos)
+	}
 	i := ex.mapFind(m, k)
 	if i >= 0 {
 		m.vals[i] = clone(v)
@@ -733,6 +744,9 @@ func (ex *Exec) mapSet(m *Map, k, v Value) {
 }
 
 func (ex *Exec) mapDelete(m *Map, k Value) {
+	if ex.sh.raceCheck && ex.gor != nil && m != nil {
+		ex.raceAccess(ex.racePseudo(m, "map"), nil, true, false, token.NoPos)
+	}
 	i := ex.mapFind(m, k)
 	if i >= 0 {
 		m.keys = append(m.keys[:i:i], m.keys[i+1:]...)
@@ -765,6 +779,10 @@ func (ex *Exec) eval(fr *frame, v ssa.Value) Value {
 		a := ex.get(fr, x.X)
 		switch x.Op {
 		case token.MUL:
+			if ex.sh.raceCheck {
+				lp := a.(Ptr)
+				ex.raceAccess(lp.obj, lp.path, false, false, x.Pos())
+			}
 			return a.(Ptr).load()
 		case token.NOT:
 			return Not(a.(*Term))
@@ -1269,6 +1287,7 @@ func (ex *Exec) builtin(b *ssa.Builtin, args []Value) Value {
 		if ch.closed {
 			panic(&goPanic{msg: "close of closed channel"})
 		}
+		ex.raceRelease(fmt.Sprintf("ch:%p", ch))
 		ch.closed = true
 		return nil
 	case "recover":
